@@ -168,7 +168,7 @@ func checkPartition(l *layout, f *mp4.File) bool {
 				okAll = false
 				continue
 			}
-			if fragNo < len(segOfFrag) && segOfFrag[fragNo] != si {
+			if l.delim != "replay" && fragNo < len(segOfFrag) && segOfFrag[fragNo] != si {
 				fail("File.startSegmentIfNeeded", "segment-of-fragment/"+rule+flagsSuffix(l), shortWitness(l),
 					fmt.Sprintf("fragment %d is in segment %d, the delimiters (%s) put it in segment %d", fragNo, si, rule, segOfFrag[fragNo]))
 				okAll = false
@@ -411,7 +411,7 @@ func checkSidx(l *layout, f *mp4.File, nz bool) {
 			fail("File.UpdateSidx", cls, w, fmt.Sprintf("reference %d starts at %d (anchor %d), segment %d starts at %d", i, cur, anchor, i, starts[i]))
 			return
 		}
-		if uint64(r.dur) != durs[i] {
+		if l.delim != "replay" && uint64(r.dur) != durs[i] {
 			fail("File.findSegmentData", "duration", w, fmt.Sprintf("reference %d duration %d, reference track %d has %d in that segment", i, r.dur, refTrack(l), durs[i]))
 			return
 		}
@@ -427,6 +427,10 @@ func checkSidx(l *layout, f *mp4.File, nz bool) {
 			cls = "end-of-media/segment-sidxs"
 		}
 		fail("File.UpdateSidx", cls, w, fmt.Sprintf("references end at %d, media ends at %d", cur, endMedia))
+		return
+	}
+	if l.delim == "replay" {
+		fmt.Fprintf(out, "NOTE\tsidx after UpdateSidx(true,%v): anchor %d, %d references tile %d segments up to %d (durations/ept/reference_ID need the generator's ground truth: not re-checked)\n", nz, anchor, len(sx.refs), len(starts), endMedia)
 		return
 	}
 	wantEPT := uint64(0)
@@ -749,4 +753,22 @@ func verifyAddSidx(w string, p []string, in, outb []byte) {
 	if sx.ept != want {
 		fail("examples/add-sidx", "earliest-presentation-time", w, fmt.Sprintf("ept %d, expected %d", sx.ept, want))
 	}
+}
+
+// replay: re-evaluates what can be checked from the bytes alone (no generator ground truth) on a witness file
+func cmdReplay(hexFile string, ism, som bool) {
+	data := hx.UnHex(hexFile)
+	sb, ok := scanTop(data)
+	if !ok {
+		fmt.Fprintln(out, "NOTE\twitness is not a sequence of boxes")
+		return
+	}
+	l := &layout{ism: ism, som: som, delim: "replay", desc: "replay"}
+	for _, b := range sb {
+		l.els = append(l.els, &elem{kind: kindOf(b.typ), data: data[b.pos : b.pos+b.size], pos: b.pos, hdr: b.hdr, seg: -1, frag: -1})
+	}
+	o := observe(l, data)
+	fmt.Fprintf(out, "NOTE\tdecode=%s partition=%s encode=%s\n", o.class, o.part, o.enc)
+	searchOne(l)
+	fmt.Fprintf(out, "EVALS\t%d\n", evals)
 }
